@@ -24,6 +24,8 @@ def check(run):
         circ.gate_compile(run, gate.methods['compile'])
         layer = repo.cls(pkg, 'CliffordLayer')
         circ.layer_application(run, layer.methods['backward'], 'backward')
+        from .C09 import independence
+        independence(run, repo, pkg)   # a layer replays its gates in layer order: only valid for disjoint supports
         for cname in ('CliffordCircuit', 'Circuit'):
             c = repo.find_cls(pkg, cname)
             if c is None:
@@ -48,6 +50,7 @@ def check(run):
     run.floor('R11.apply', 8)
     run.floor('R11.compile', 8)
     run.floor('R10.gen', 12)
+    run.floor('R11.indep', 4)
     run.decide('backward mirrors forward at every level: negated generator, backward map or inverted forward map, '
                'descending layer order, descending fold of the compiled backward map, mutual-inverse gate compilation')
     run.decline('correctness of CliffordMap.inverse (C04) and of the rotation itself (C02); behaviour of random gates '
